@@ -249,6 +249,39 @@ def run(rep, tier, seed):
                 rep.case('wide %s' % case.canon[:200], nontrivial=True)
                 rep.count('wide-records')
                 check_case(rep, drv, case)
+    # narrow records: every ordered pair (and some triples) of member kinds - primitives over the whole range of universal
+    # tag numbers and container members - as SEQUENCE and SET, bare and under an explicit tag: the record / list guess has to
+    # take the last member into account, and a SET wrongly taken for a SET OF is re-encoded in another order
+    nk = [(('int',), ('i', 5)), (('bool',), ('b', True)), (('null',), ('null',)), (('str', 4), ('s', b'ab')), (('str', 12), ('s', b'hi')),
+          (('str', 19), ('s', b'hi')), (('str', 22), ('s', b'hi')), (('str', 30), ('s', b'\x00h')), (('str', 23), ('s', b'170801120112Z')),
+          (('oid',), ('oid', [1, 3, 6])), (('seq', [('r', None, ('int',))]), ('seq', [('i', 5)])),
+          (('set', [('r', None, ('int',))]), ('seq', [('i', 6)])), (('seqof', ('int',)), ('seqof', [('i', 1), ('i', 2)]))]
+    for (ka, va) in nk:
+        for (kb, vb) in nk:
+            if ka == kb:
+                continue
+            combos = [([ka, kb], [va, vb])]
+            if rng.random() < 0.25:
+                combos.append(([ka, ka, kb] if False else [ka, kb, nk[rng.randrange(len(nk))][0]], None))
+            for kinds_, vals_ in combos:
+                if vals_ is None:
+                    third = [x for x in nk if x[0] == kinds_[2]][0]
+                    vals_ = [va, vb, third[1]]
+                for cons in ('seq', 'set'):
+                    t = (cons, [('r', None, k) for k in kinds_])
+                    v = ('seq', list(vals_))
+                    for tt, vv in ((t, v), (('tag', 'e', 'c', 1, t), v)):
+                        if not gen.wf(tt):
+                            continue
+                        try:
+                            case = engine.Case(tt, vv)
+                        except Exception:  # noqa
+                            continue
+                        if not engine.representable(case):
+                            continue
+                        rep.case('narrow %s' % case.canon[:200], nontrivial=True)
+                        rep.count('narrow-records')
+                        check_case(rep, drv, case)
     done = 0
     for case in engine.gen_cases(rng, n * 4, max_depth=3, allow_implicit=False):
         if done >= n:
